@@ -38,7 +38,7 @@ def gen_log(rng, n, tier):
                     qq = [None] + [[[next(it) for _ in range(ns[k])] for _ in range(ns[k - 1])] for k in range(1, T)]
                     out.append({'ns': list(ns), 'p': p, 'q': qq, 'log': True})
     for _ in range(n):
-        c = gen_model(rng, rng.randint(1, 8), 5, rng.choice([[0, 1, 2], [0, 1, 2, 3, 5, 8], [1, 1, 2], [0, 0.5, 0.25, 3]]))
+        c = gen_model(rng, rng.randint(1, 8), 5, rng.choice([[0, 1, 2], [0, 1, 2, 3, 5, 8], [1, 1, 2], [0, 0.5, 0.25, 3], [-1, 0, 1, 2], [-2, -0.5, 0, 3, 0.25]]))     # costs = -log likelihood; negative = an unnormalised likelihood above 1
         c['log'] = True
         out.append(c)
     return out
@@ -74,6 +74,9 @@ def run_impl(case):
     # the cost tables the implementation itself used
     pc = [[-hmm.Plog(label(k, l), None, k, tr) for l in range(ns[k])] for k in range(T)]
     qc = [None] + [[[-hmm.Qlog(label(k - 1, m), label(k, l), k - 1, tr) for l in range(ns[k])] for m in range(ns[k - 1])] for k in range(1, T)]
+    if case['log']:          # logarithms supplied directly: the model is given the supplied tables themselves, not what Plog / Qlog made of them
+        pc = [[float(p[k][l]) for l in range(ns[k])] for k in range(T)]
+        qc = [None] + [[[float(qq[k][m][l]) for l in range(ns[k])] for m in range(ns[k - 1])] for k in range(1, T)]
     return {'inf': [float(x) for x in tr['hmm_inference']], 'cost': float(tr['hmm_cost', T - 1]), 'pc': pc, 'qc': qc}
 
 
